@@ -770,7 +770,20 @@ def check_C29(res):
     return "(M) every interleaving (incl. condition-variable timeouts and spurious wake-ups at any point) of pools with 0-2 permanent workers, lingering or non-lingering auxiliary workers, 2-4 submitters (submit / submit_or_spawn) and concurrent shutdown: safety invariants + liveness under weak fairness of thread steps; the as_found variant must violate them; (V) real schedules of the unmodified thread.rs: 0-2 permanent workers, linger 0 or 4-19 ms, 1-6 tasks from their own threads, shutdown at a random time or only after every accepted task ran, sink that naps 0-300 us inside critical sections and sometimes holds a submitter inside the pool mutex for 3 x linger; every hook event validated with its logged scalars"
 
 
+def check_C30(res):
+    q = res.tier == "quick"
+    for cfg in ["MCF_a", "MCF_b", "MCF_c"]:
+        run_mc(res, f"MC_Framing/{cfg}", "MCF.tla", cfg + ".cfg", workers=2)
+    run_mc(res, "MC_Framing/mutant (leftover not moved to the front)", "MCF.tla", "MCF_mutant.cfg", workers=2, expect_violation="any")
+    trace_stage(res, ["io", res.seed, 25 if q else 1500], "TraceIo", "io", ["C30"], session_start=None)
+    res.assumptions += ["requests are sent well within the 5 s read timeout of the providers",
+                        "the per-request oracle is the in-process handle_message result on the same server (validated against Server.tla by C01-C10)",
+                        "if the kernel resets a connection the server closed with unread requests, only a prefix of the expected octets is required (never observed on loopback)"]
+    return "(M) the TCP read loop (buffer, n_read, cached length, leftover, close after a response-less message) against the abstract length-prefixed stream for every segmentation into reads, with liveness; (V) both providers in-process on loopback: blocking with (0 base workers, no linger, 1 UDP worker), (2, 50 ms, 2), (1, 0, 3) and Tokio; per configuration n connections carrying 1-7 requests (valid, FORMERR, NOTIMP, EDNS, response-less: QR set / shorter than a header / empty / two questions), written in one piece (pipelined) or in segments of 1-4000 octets with 0-11 ms pauses; n UDP exchanges from fresh sockets; everything returned, a 40 ms window for surplus octets/datagrams, close detection"
+
+
 CHECKS = {
+    "C30": check_C30,
     "C29": check_C29,
     "C26": check_C26, "C27": check_C27, "C28": check_C28,
     "C23": check_C23, "C24": check_C24, "C25": check_C25,
